@@ -25,7 +25,12 @@ extern "C" {
 struct Key { std::string name, attr, conv; bool conv_null = false; int infolen = 0; };
 struct Ev { uint32_t w0, w1, w2; };
 struct Stream { std::string name; std::vector<std::pair<std::string, std::string>> infos; std::vector<Ev> ev; };
-struct Rank { std::vector<Stream> streams; };
+struct Rank {
+    std::vector<Stream> streams;
+    std::vector<int> order;      // order[j] = index (in Case::keys) of the key this rank registers j-th; empty = 0,1,2,...
+    int at(int j) const { return order.empty() ? j : order[j]; }
+    int pos_of(int kidx) const { if (order.empty()) return kidx; for (size_t j = 0; j < order.size(); j++) if (order[j] == kidx) return (int)j; return -1; }
+};
 struct Case {
     int pages = 1, resize = 1, explicit_dump = 1;
     std::string hrid;
@@ -45,6 +50,7 @@ static std::string repr(const Case &c)
     for (auto &g : c.ginfos) o << "ginfo " << hexs(g.first) << " " << hexs(g.second) << "\n";
     for (auto &r : c.ranks) {
         o << "rank\n";
+        if (!r.order.empty()) { o << "order"; for (int x : r.order) o << " " << x; o << "\n"; }
         for (auto &s : r.streams) {
             o << "stream " << hexs(s.name) << "\n";
             for (auto &i : s.infos) o << "sinfo " << hexs(i.first) << " " << hexs(i.second) << "\n";
@@ -65,6 +71,7 @@ static Case parse(const std::string &txt)
         else if (w == "key") { Key k; std::string a, b, d; ls >> a >> b >> d >> k.infolen; k.name = unhex(a); k.attr = unhex(b); if (d == "NULL") k.conv_null = true; else k.conv = unhex(d); c.keys.push_back(k); }
         else if (w == "ginfo") { std::string a, b; ls >> a >> b; c.ginfos.push_back({unhex(a), unhex(b)}); }
         else if (w == "rank") c.ranks.emplace_back();
+        else if (w == "order" && !c.ranks.empty()) { int x; while (ls >> x) c.ranks.back().order.push_back(x); }
         else if (w == "stream" && !c.ranks.empty()) { std::string a; ls >> a; Stream s; s.name = unhex(a); c.ranks.back().streams.push_back(s); }
         else if (w == "sinfo" && !c.ranks.empty() && !c.ranks.back().streams.empty()) { std::string a, b; ls >> a >> b; c.ranks.back().streams.back().infos.push_back({unhex(a), unhex(b)}); }
         else if (w == "events" && !c.ranks.empty() && !c.ranks.back().streams.empty()) { size_t n; ls >> n; auto &ev = c.ranks.back().streams.back().ev; for (size_t i = 0; i < n; i++) { Ev e; ls >> e.w0 >> e.w1 >> e.w2; ev.push_back(e); } }
@@ -130,11 +137,17 @@ static int do_write(const char *casefile, int rank)
     setenv("PARSEC_MCA_profile_file_resize", std::to_string(c.resize).c_str(), 1);
     if (parsec_profiling_init(rank) != 0) { fprintf(stderr, "WRITE-ERR parsec_profiling_init failed\n"); return 3; }
     if (parsec_profiling_dbp_start(base_of(casefile).c_str(), c.hrid.c_str()) != 0) { fprintf(stderr, "WRITE-ERR dbp_start: %s\n", parsec_profiling_strerror()); return 3; }
-    std::vector<std::pair<int, int>> keys;
-    for (auto &k : c.keys) {
+    if (!c.ranks[rank].order.empty()) {           // a permutation of the key indices, or the case file is not ours
+        std::vector<int> o = c.ranks[rank].order; std::sort(o.begin(), o.end());
+        for (size_t j = 0; j < o.size(); j++) if (o[j] != (int)j) return 2;
+        if (o.size() != c.keys.size()) return 2;
+    }
+    std::vector<std::pair<int, int>> keys(c.keys.size());
+    for (size_t j = 0; j < c.keys.size(); j++) {
+        const Key &k = c.keys[c.ranks[rank].at((int)j)];
         int ks = -1, ke = -1;
         if (parsec_profiling_add_dictionary_keyword(k.name.c_str(), k.attr.c_str(), (size_t)k.infolen, k.conv_null ? nullptr : k.conv.c_str(), &ks, &ke) != 0) { fprintf(stderr, "WRITE-ERR add_dictionary_keyword failed\n"); return 3; }
-        keys.push_back({ks, ke});
+        keys[c.ranks[rank].at((int)j)] = {ks, ke};
     }
     for (auto &g : c.ginfos) parsec_profiling_add_information(g.first.c_str(), g.second.c_str());
     const Rank &r = c.ranks[rank];
@@ -182,7 +195,7 @@ static int do_read(const char *casefile)
         if (nd != (int)c.keys.size() + 1) RFAIL("rank %d: %zu dictionary keys written (+ the reserved one), %d read back", rank, c.keys.size(), nd);
         for (int k = 0; k < (int)c.keys.size(); k++) {
             dbp_dictionary_t *d = dbp_file_get_dictionary(file, k + 1);
-            const Key &w = c.keys[k];
+            const Key &w = c.keys[c.ranks[rank].at(k)];
             if (w.name != dbp_dictionary_name(d)) RFAIL("rank %d key %d: name '%s' read back as '%s'", rank, k, w.name.c_str(), dbp_dictionary_name(d));
             if (w.infolen != dbp_dictionary_keylen(d)) RFAIL("rank %d key %d (%s): info length %d read back as %d", rank, k, w.name.c_str(), w.infolen, dbp_dictionary_keylen(d));
             std::string wc = w.conv_null ? "" : w.conv;
@@ -220,7 +233,7 @@ static int do_read(const char *casefile)
             for (; e != nullptr; e = dbp_iterator_next(iter), n++) {
                 if (n >= s.ev.size()) RFAIL("rank %d stream '%s': more than the %zu written events are read back", rank, s.name.c_str(), s.ev.size());
                 Decoded d = decode(c, s.ev[n]);
-                int wkey = 2 * (d.kidx + 1) + (d.is_end ? 1 : 0);
+                int wkey = 2 * (wr.pos_of(d.kidx) + 1) + (d.is_end ? 1 : 0);      // keys are local to the file: registration position
                 int wflags = d.flags | (d.with_info ? PARSEC_PROFILING_EVENT_HAS_INFO : 0);
                 if (dbp_event_get_key(e) != wkey) RFAIL("rank %d stream '%s' event %zu: key %d read back as %d", rank, s.name.c_str(), n, wkey, dbp_event_get_key(e));
                 if (dbp_event_get_flags(e) != wflags) RFAIL("rank %d stream '%s' event %zu: flags %d read back as %d", rank, s.name.c_str(), n, wflags, dbp_event_get_flags(e));
@@ -345,6 +358,13 @@ static Case gen_case()
     int R = *rc::gen::element(1, 1, 1, 2, 3);
     for (int r = 0; r < R; r++) {
         Rank rk;
+        // ranks after the first may register the (same) keywords in another order: the reader merges the dictionaries by
+        // (name, info length, convertor) and keeps a per-file translation, so this is within "consistent between ranks"
+        if (r > 0 && nk > 1 && *rc::gen::resize(100, rc::gen::inRange(0, 3)) != 0) {
+            std::vector<int> pri = *rc::gen::container<std::vector<int>>((size_t)nk, rc::gen::resize(100, rc::gen::inRange(0, 1 << 20)));
+            for (int j = 0; j < nk; j++) rk.order.push_back(j);
+            std::stable_sort(rk.order.begin(), rk.order.end(), [&](int a, int b) { return pri[a] < pri[b]; });
+        }
         int T = *rc::gen::resize(100, rc::gen::inRange(1, 9));
         for (int t = 0; t < T; t++) {
             Stream s;
@@ -387,6 +407,7 @@ int main(int argc, char **argv)
         if (ri.max_pages >= 3) vf::label("stream_spanning_3_or_more_buffers");
         if (ri.max_pages >= 10) vf::label("stream_spanning_10_or_more_buffers");
         if (ri.info_used) vf::label("events_with_info_payload");
+        for (auto &rk : c.ranks) if (!rk.order.empty()) { vf::label("a_rank_registers_the_keys_in_another_order"); break; }
         if (ri.threads_max >= 2) vf::label("two_or_more_streams");
         if (ri.events == 0) vf::label("no_event_at_all");
         for (auto &g : c.ginfos) if (g.second.size() > 4000) { vf::label("global_info_value_longer_than_a_page"); break; }
